@@ -77,18 +77,20 @@ def run(ck):
             ck.anchor_missing("2", "T2-all-exits", "Poller::wait call in Poll::poll")
 
     # ---- clause 3: translation tables -----------------------------------------------------------------
-    ci = ck.opt_body("sys::cvt_interest")
+    eb = common.event_builder(f)
+    ci = eb[0] if eb else None
     if ci is None:
         ck.anchor_missing("3", "T9-layout", "sys::cvt_interest")
     else:
+        ci, interest_arg, token_arg, token_is_inner = eb
         for fld in ("readable", "writable"):
             st_ = [(i, st) for i, j, st in T.stores_to_field(ci, fld)]
-            ok = bool(st_) and all(st["rv"]["r"] == "use" and T.resolves_to_arg(ci, st["rv"]["o"], 1) and T.path_has(ci, st["rv"]["o"], "." + fld) for i, st in st_)
+            ok = bool(st_) and all(st["rv"]["r"] == "use" and T.resolves_to_arg(ci, st["rv"]["o"], interest_arg) and T.path_has(ci, st["rv"]["o"], "." + fld) for i, st in st_)
             ck.verdict(ok, "3", "T9-layout", ci, "event.%s=interest.%s" % (fld, fld), "the poller event's %s is the interest's %s" % (fld, fld), "cvt_interest does not copy `%s` from the requested interest (that interest is never armed / the wrong one is)" % fld, site=ci.where())
         nn = T.calls(ci, name=("none", "new", "all", "readable", "writable"), path="polling::Event")
-        ok = bool(nn) and all(T.tainted_by_call(ci, c.args[0], [x.bb for x in T.calls(ci, name=("into", "from"))]) or T.path_has(ci, c.args[0], ".inner") for c in nn) and all(c.name == "none" for c in nn)
+        ok = bool(nn) and all(T.tainted_by_call(ci, c.args[0], [x.bb for x in T.calls(ci, name=("into", "from"))]) or T.path_has(ci, c.args[0], ".inner") or (token_is_inner and T.resolves_to_arg(ci, c.args[0], token_arg)) for c in nn) and all(c.name == "none" for c in nn)
         conv = T.calls(ci, name=("into", "from"))
-        ok = ok and all(T.resolves_to_arg(ci, c.args[0], 2) and T.path_has(ci, c.args[0], ".inner") for c in conv)
+        ok = ok and all(T.resolves_to_arg(ci, c.args[0], token_arg) and (token_is_inner or T.path_has(ci, c.args[0], ".inner")) for c in conv)
         ck.verdict(ok, "3", "T9-layout", ci, "event.key=usize::from(token.inner)", "the poller key is the packed token of this registration, and the event starts from Event::none", "cvt_interest does not use the packed token as the poller key / does not start from an empty event", site=ci.where())
     # the mode translation, found by its role (Mode x bool -> polling::PollMode) rather than by its name, and decided by
     # evaluating its MIR on all six inputs (engine/bits/finite_eval.py)
@@ -110,9 +112,15 @@ def run(ck):
             for sup in (0, 1):
                 args = [None, None]
                 args[mode_arg - 1] = ("enum", "sys::Mode", mi, [])
-                args[bool_arg - 1] = ("int", sup)
+                oracles = None
+                if bool_arg > 0:
+                    args[bool_arg - 1] = ("int", sup)
+                else:
+                    # the function asks the poller itself (`poller.supports_level()`): that query is the enumerated input
+                    args[-bool_arg - 1] = ("ref", FE.Cell(("opaque",)))
+                    oracles = {"supports_level": ("int", sup)}
                 try:
-                    ev = FE.Eval(f)
+                    ev = FE.Eval(f, oracles=oracles)
                     got = ev.run(body_cm, args)
                     name = ev.variant_names.get((got[1], got[2])) if got[0] == "enum" else str(got)
                 except FE.Unsupported as e:
@@ -121,9 +129,10 @@ def run(ck):
                 seen.setdefault(mv["name"] if sup else "<no-modes>", set()).add(name)
         if err:
             ck.undecided("3", "T9-layout", body_cm, "mode-table", "the mode translation could not be evaluated (%s)" % err, site=body_cm.where())
-        for m, w in want.items():
+        for m, w in ([] if err else want.items()):
             ck.verdict(seen.get(m) == {w}, "3", "T9-layout", body_cm, "Mode::%s->PollMode::%s" % (m, w), "Mode::%s is translated to PollMode::%s" % (m, w), "Mode::%s is translated to %s (a level-triggered source would be reported once, an edge-triggered one continuously, ...)" % (m, sorted(str(x) for x in seen.get(m, []))), site=body_cm.where())
-        ck.verdict(seen.get("<no-modes>", {"Oneshot"}) == {"Oneshot"}, "3", "T9-layout", body_cm, "no-mode-support->Oneshot", "without poller mode support everything is Oneshot (level is emulated)", "the fallback without mode support is not Oneshot: %s" % sorted(str(x) for x in seen.get("<no-modes>", [])), site=body_cm.where())
+        if not err:
+          ck.verdict(seen.get("<no-modes>", {"Oneshot"}) == {"Oneshot"}, "3", "T9-layout", body_cm, "no-mode-support->Oneshot", "without poller mode support everything is Oneshot (level is emulated)", "the fallback without mode support is not Oneshot: %s" % sorted(str(x) for x in seen.get("<no-modes>", [])), site=body_cm.where())
 
     # ---- clause 4: bounded batches re-arm themselves ---------------------------------------------------------
     for q, feature in (("<Channel as EventSource>::process_events", None), ("<Executor as EventSource>::process_events", "executor")):
